@@ -21,6 +21,10 @@ MacroOK(r) ==
       [] r.form = "box_repeat_noncopy" ->
             /\ r.bevals = <<7>> /\ r.bitems = Copies(r.k, 1007) /\ r.blen = r.k
 
+\* type-level lengths beyond 32 bits (only arrays of zero-sized elements can have them): the Box holds exactly N elements;
+\* N and the observed length travel as two 32-bit halves
+MacroHugeOK(r) == r.len_hi = r.k_hi /\ r.len_lo = r.k_lo
+
 \* zero-sized elements with a destructor: the array / Box holds k live elements - none of them is dropped while
 \* it is alive (in the repeat form the operand value itself may or may not be consumed: at most that one drop)
 \* and exactly k are dropped with it
